@@ -265,22 +265,27 @@ Proof.
 Qed.
 
 (* ---------- the whole task, modulo the component facts ---------- *)
+(* [good]: the class of programs on which the component facts about tau-star / mu are available
+   (the real translations panic on the overflow class F11 and are characterised only outside it:
+   Proofs/StrongFullOk.v takes good := no_global_overflow; good := fun _ => True gives back the
+   unrelativised statements, below the Section). *)
 Section Task.
 Variable tau_star mu : program -> theory.
 Variable simp_ht simp_classic : formula -> formula.
+Variable good : program -> Prop.
 
 (* the simplification steps preserve meaning (to be discharged by the C07 theorems) *)
 Hypothesis simp_ht_ok : forall FI H T f, sub H T -> (hvalid FI H T (simp_ht f) <-> hvalid FI H T f).
 Hypothesis simp_classic_ok : forall FI M f, cvalid FI M (simp_classic f) <-> cvalid FI M f.
 (* vocabulary: the formula representations mention only the program's predicates, the HT-level
    simplification introduces no predicate (C01 / C08 / C07) *)
-Hypothesis tau_star_vocab : forall P f p, In f (tau_star P) -> In p (predicates f) -> In p (program_preds P).
-Hypothesis mu_vocab : forall P f p, In f (mu P) -> In p (predicates f) -> In p (program_preds P).
+Hypothesis tau_star_vocab : forall P f p, good P -> In f (tau_star P) -> In p (predicates f) -> In p (program_preds P).
+Hypothesis mu_vocab : forall P f p, good P -> In f (mu P) -> In p (predicates f) -> In p (program_preds P).
 Hypothesis simp_ht_vocab : forall f p, In p (predicates (simp_ht f)) -> In p (predicates f).
 
 Definition repr_of (r : frepr) : program -> theory := match r with ReprMu => mu | ReprTauStar => tau_star end.
-Lemma repr_vocab r P f p : In f (repr_of r P) -> In p (predicates f) -> In p (program_preds P).
-Proof. destruct r; cbn; [apply mu_vocab|apply tau_star_vocab]. Qed.
+Lemma repr_vocab r P f p : good P -> In f (repr_of r P) -> In p (predicates f) -> In p (program_preds P).
+Proof. intros HG. destruct r; cbn; [apply mu_vocab|apply tau_star_vocab]; exact HG. Qed.
 
 Definition side := strong_side tau_star mu simp_ht simp_classic.
 
@@ -297,10 +302,10 @@ Definition ht_models (FI : fint) (M : pint) (r : frepr) (P : program) : Prop :=
 (* the theory obtained for one side means: (Hc M, T_of M) is an HT model of the representation,
    for every value of the simplify and eq-break flags *)
 Theorem side_valid FI M (t : strong_task) (P : program) S :
-  sub_on S (H_of M) (T_of M) -> (forall p, In p (program_preds P) -> In p S) ->
+  good P -> sub_on S (H_of M) (T_of M) -> (forall p, In p (program_preds P) -> In p S) ->
   (tvalid FI M (side t P) <-> ht_models FI M (st_repr t) P).
 Proof.
-  intros Hs HS. rewrite side_eq. unfold ht_models. cbv beta.
+  intros HG Hs HS. rewrite side_eq. unfold ht_models. cbv beta.
   set (t0 := repr_of (st_repr t) P).
   assert (Hvoc0 : forall f, In f t0 -> forall p, In p (predicates f) -> In p S).
   { intros f Hf p Hp. apply HS. eapply repr_vocab; eauto. }
@@ -340,8 +345,8 @@ Lemma in_strong_predicates_r L R p : In p (program_preds R) -> In p (strong_pred
 Proof. intros Hp. unfold strong_predicates. apply (in_iset_extend pred_dec). auto. Qed.
 
 (* the refutation set of the emitted family, for any flags *)
-Theorem strong_refutes FI M (t : strong_task) :
-  no_symbol_pred_clash t ->
+Theorem strong_refutes_rel FI M (t : strong_task) :
+  good (st_left t) -> good (st_right t) -> no_symbol_pred_clash t ->
   (refutes_some FI M (strong_decompose tau_star mu simp_ht simp_classic t) <->
    sub_on (strong_predicates (st_left t) (st_right t)) (H_of M) (T_of M) /\
    ((dir_forward (st_direction t) = true /\
@@ -349,7 +354,7 @@ Theorem strong_refutes FI M (t : strong_task) :
     (dir_backward (st_direction t) = true /\
      ht_models FI M (st_repr t) (st_right t) /\ ~ ht_models FI M (st_repr t) (st_left t)))).
 Proof.
-  intros [Hnf Hnb]. unfold strong_decompose, strong_assemble.
+  intros HGl HGr [Hnf Hnb]. unfold strong_decompose, strong_assemble.
   fold (side t (st_left t)). fold (side t (st_right t)).
   set (ta := transition_axioms (st_left t) (st_right t)) in *.
   set (S := strong_predicates (st_left t) (st_right t)).
@@ -357,7 +362,7 @@ Proof.
   assert (Hside : sub_on S (H_of M) (T_of M) ->
             (tvalid FI M (side t (st_left t)) <-> ht_models FI M (st_repr t) (st_left t)) /\
             (tvalid FI M (side t (st_right t)) <-> ht_models FI M (st_repr t) (st_right t))).
-  { intros Hs. split; apply (side_valid FI M t _ S Hs); intros p Hp;
+  { intros Hs. split; [apply (side_valid FI M t _ S HGl Hs)|apply (side_valid FI M t _ S HGr Hs)]; intros p Hp;
       [apply in_strong_predicates_l|apply in_strong_predicates_r]; exact Hp. }
   pose proof (transition_axioms_sub FI M (st_left t) (st_right t)) as Hta. fold ta in Hta. fold S in Hta.
   split.
@@ -380,28 +385,31 @@ Qed.
 Definition same_claim (t t' : strong_task) : Prop :=
   st_left t = st_left t' /\ st_right t = st_right t' /\ st_direction t = st_direction t' /\ st_repr t = st_repr t'.
 
-Theorem C19_strong_modulo_simplify_proof (t t' : strong_task) :
+Theorem C19_strong_modulo_simplify_rel (t t' : strong_task) :
+  good (st_left t) -> good (st_right t) ->
   same_claim t t' -> no_symbol_pred_clash t -> no_symbol_pred_clash t' ->
   forall FI M,
     refutes_some FI M (strong_decompose tau_star mu simp_ht simp_classic t) <->
     refutes_some FI M (strong_decompose tau_star mu simp_ht simp_classic t').
 Proof.
-  intros [EL [ER [ED ERp]]] Hn Hn' FI M.
-  rewrite (strong_refutes FI M t Hn), (strong_refutes FI M t' Hn').
+  intros HGl HGr [EL [ER [ED ERp]]] Hn Hn' FI M.
+  assert (HGl' : good (st_left t')) by (rewrite <- EL; exact HGl).
+  assert (HGr' : good (st_right t')) by (rewrite <- ER; exact HGr).
+  rewrite (strong_refutes_rel FI M t HGl HGr Hn), (strong_refutes_rel FI M t' HGl' HGr' Hn').
   rewrite EL, ER, ED, ERp. reflexivity.
 Qed.
 
 (* C03 modulo the adequacy of the formula representation w.r.t. the reference semantics *)
-Hypothesis tau_star_adequate : forall FI H T P, sub H T ->
+Hypothesis tau_star_adequate : forall FI H T P, good P -> sub H T ->
   ((forall f, In f (tau_star P) -> hvalid FI H T f) <-> ref_sat H T P).
-Hypothesis mu_adequate : forall FI H T P, sub H T ->
+Hypothesis mu_adequate : forall FI H T P, good P -> sub H T ->
   ((forall f, In f (mu P) -> hvalid FI H T f) <-> ref_sat H T P).
 
-Lemma ht_models_ref FI M r P : ht_models FI M r P <-> ref_sat (Hc M) (T_of M) P.
-Proof. unfold ht_models. destruct r; cbn; [apply mu_adequate|apply tau_star_adequate]; apply Hc_sub. Qed.
+Lemma ht_models_ref FI M r P : good P -> (ht_models FI M r P <-> ref_sat (Hc M) (T_of M) P).
+Proof. intros HG. unfold ht_models. destruct r; cbn; [apply mu_adequate|apply tau_star_adequate]; auto using Hc_sub. Qed.
 
-Theorem C03_partial_proof FI M (t : strong_task) :
-  no_symbol_pred_clash t ->
+Theorem C03_partial_rel FI M (t : strong_task) :
+  good (st_left t) -> good (st_right t) -> no_symbol_pred_clash t ->
   (refutes_some FI M (strong_decompose tau_star mu simp_ht simp_classic t) <->
    sub_on (strong_predicates (st_left t) (st_right t)) (H_of M) (T_of M) /\
    ((dir_forward (st_direction t) = true /\
@@ -409,20 +417,21 @@ Theorem C03_partial_proof FI M (t : strong_task) :
     (dir_backward (st_direction t) = true /\
      ref_sat (Hc M) (T_of M) (st_right t) /\ ~ ref_sat (Hc M) (T_of M) (st_left t)))).
 Proof.
-  intros Hn. rewrite (strong_refutes FI M t Hn). rewrite !ht_models_ref. reflexivity.
+  intros HGl HGr Hn. rewrite (strong_refutes_rel FI M t HGl HGr Hn).
+  rewrite !(ht_models_ref FI M _ _ HGl), !(ht_models_ref FI M _ _ HGr). reflexivity.
 Qed.
 
 (* all problems are theorems (no interpretation refutes any of them) exactly when the two programs
    have the same here-and-there models: strong equivalence *)
-Theorem C03_strong_partial_proof (t : strong_task) :
-  no_symbol_pred_clash t -> st_direction t = DUniversal ->
+Theorem C03_strong_partial_rel (t : strong_task) :
+  good (st_left t) -> good (st_right t) -> no_symbol_pred_clash t -> st_direction t = DUniversal ->
   ((forall FI M, ~ refutes_some FI M (strong_decompose tau_star mu simp_ht simp_classic t)) <->
    (forall H T, sub H T -> (ref_sat H T (st_left t) <-> ref_sat H T (st_right t)))).
 Proof.
-  intros Hn Hd. split.
+  intros HGl HGr Hn Hd. split.
   - intros Hnr H T Hs.
     set (FI0 := mkfint (fun _ => VInf) (fun _ => 0%Z) (fun _ => ""%string)).
-    pose proof (Hnr FI0 (merge H T)) as Hm. rewrite (C03_partial_proof FI0 (merge H T) t Hn), Hd in Hm. cbn [dir_forward dir_backward] in Hm.
+    pose proof (Hnr FI0 (merge H T)) as Hm. rewrite (C03_partial_rel FI0 (merge H T) t HGl HGr Hn), Hd in Hm. cbn [dir_forward dir_backward] in Hm.
     assert (EH : pint_equiv (Hc (merge H T)) H).
     { intros p a. unfold Hc, H_of, T_of. cbn. split; [tauto|]. intros Hh; split; [exact Hh|apply Hs, Hh]. }
     assert (ET : pint_equiv (T_of (merge H T)) T) by (intros p a; unfold T_of; cbn; tauto).
@@ -430,7 +439,73 @@ Proof.
     assert (Hsub : sub_on (strong_predicates (st_left t) (st_right t)) (H_of (merge H T)) (T_of (merge H T))).
     { intros p a _. unfold H_of, T_of. cbn. apply Hs. }
     destruct (classic (ref_sat H T (st_left t))) as [Hl|Hl], (classic (ref_sat H T (st_right t))) as [Hr|Hr]; tauto.
-  - intros Heq FI M Hr. rewrite (C03_partial_proof FI M t Hn) in Hr. destruct Hr as [_ Hr].
+  - intros Heq FI M Hr. rewrite (C03_partial_rel FI M t HGl HGr Hn) in Hr. destruct Hr as [_ Hr].
     specialize (Heq (Hc M) (T_of M) (Hc_sub M)). tauto.
 Qed.
 End Task.
+
+(* ---------- the unrelativised statements (good := every program), with their original names ---------- *)
+Section TaskAll.
+Variable tau_star mu : program -> theory.
+Variable simp_ht simp_classic : formula -> formula.
+Hypothesis simp_ht_ok : forall FI H T f, sub H T -> (hvalid FI H T (simp_ht f) <-> hvalid FI H T f).
+Hypothesis simp_classic_ok : forall FI M f, cvalid FI M (simp_classic f) <-> cvalid FI M f.
+Hypothesis tau_star_vocab : forall P f p, In f (tau_star P) -> In p (predicates f) -> In p (program_preds P).
+Hypothesis mu_vocab : forall P f p, In f (mu P) -> In p (predicates f) -> In p (program_preds P).
+Hypothesis simp_ht_vocab : forall f p, In p (predicates (simp_ht f)) -> In p (predicates f).
+
+Let all : program -> Prop := fun _ => True.
+
+Theorem strong_refutes FI M (t : strong_task) :
+  no_symbol_pred_clash tau_star mu simp_ht simp_classic t ->
+  (refutes_some FI M (strong_decompose tau_star mu simp_ht simp_classic t) <->
+   sub_on (strong_predicates (st_left t) (st_right t)) (H_of M) (T_of M) /\
+   ((dir_forward (st_direction t) = true /\
+     ht_models tau_star mu FI M (st_repr t) (st_left t) /\ ~ ht_models tau_star mu FI M (st_repr t) (st_right t)) \/
+    (dir_backward (st_direction t) = true /\
+     ht_models tau_star mu FI M (st_repr t) (st_right t) /\ ~ ht_models tau_star mu FI M (st_repr t) (st_left t)))).
+Proof.
+  apply (strong_refutes_rel tau_star mu simp_ht simp_classic all simp_ht_ok simp_classic_ok
+           (fun P f p _ => tau_star_vocab P f p) (fun P f p _ => mu_vocab P f p) simp_ht_vocab FI M t I I).
+Qed.
+
+Theorem C19_strong_modulo_simplify_proof (t t' : strong_task) :
+  same_claim t t' -> no_symbol_pred_clash tau_star mu simp_ht simp_classic t ->
+  no_symbol_pred_clash tau_star mu simp_ht simp_classic t' ->
+  forall FI M,
+    refutes_some FI M (strong_decompose tau_star mu simp_ht simp_classic t) <->
+    refutes_some FI M (strong_decompose tau_star mu simp_ht simp_classic t').
+Proof.
+  apply (C19_strong_modulo_simplify_rel tau_star mu simp_ht simp_classic all simp_ht_ok simp_classic_ok
+           (fun P f p _ => tau_star_vocab P f p) (fun P f p _ => mu_vocab P f p) simp_ht_vocab t t' I I).
+Qed.
+
+Hypothesis tau_star_adequate : forall FI H T P, sub H T ->
+  ((forall f, In f (tau_star P) -> hvalid FI H T f) <-> ref_sat H T P).
+Hypothesis mu_adequate : forall FI H T P, sub H T ->
+  ((forall f, In f (mu P) -> hvalid FI H T f) <-> ref_sat H T P).
+
+Theorem C03_partial_proof FI M (t : strong_task) :
+  no_symbol_pred_clash tau_star mu simp_ht simp_classic t ->
+  (refutes_some FI M (strong_decompose tau_star mu simp_ht simp_classic t) <->
+   sub_on (strong_predicates (st_left t) (st_right t)) (H_of M) (T_of M) /\
+   ((dir_forward (st_direction t) = true /\
+     ref_sat (Hc M) (T_of M) (st_left t) /\ ~ ref_sat (Hc M) (T_of M) (st_right t)) \/
+    (dir_backward (st_direction t) = true /\
+     ref_sat (Hc M) (T_of M) (st_right t) /\ ~ ref_sat (Hc M) (T_of M) (st_left t)))).
+Proof.
+  apply (C03_partial_rel tau_star mu simp_ht simp_classic all simp_ht_ok simp_classic_ok
+           (fun P f p _ => tau_star_vocab P f p) (fun P f p _ => mu_vocab P f p) simp_ht_vocab
+           (fun FI H T P _ => tau_star_adequate FI H T P) (fun FI H T P _ => mu_adequate FI H T P) FI M t I I).
+Qed.
+
+Theorem C03_strong_partial_proof (t : strong_task) :
+  no_symbol_pred_clash tau_star mu simp_ht simp_classic t -> st_direction t = DUniversal ->
+  ((forall FI M, ~ refutes_some FI M (strong_decompose tau_star mu simp_ht simp_classic t)) <->
+   (forall H T, sub H T -> (ref_sat H T (st_left t) <-> ref_sat H T (st_right t)))).
+Proof.
+  apply (C03_strong_partial_rel tau_star mu simp_ht simp_classic all simp_ht_ok simp_classic_ok
+           (fun P f p _ => tau_star_vocab P f p) (fun P f p _ => mu_vocab P f p) simp_ht_vocab
+           (fun FI H T P _ => tau_star_adequate FI H T P) (fun FI H T P _ => mu_adequate FI H T P) t I I).
+Qed.
+End TaskAll.
